@@ -1,4 +1,5 @@
 import P2PVerif.Driver.Core
+import P2PVerif.Driver.DHT
 import P2PVerif.Gen.Src
 /-! The `src` stream: evaluates the definitions REGENERATED from the Go source (`Gen/Src.lean`) on the inputs the
     harness ran the real functions on. This is the translator's own correspondence check. -/
@@ -118,11 +119,64 @@ def iterFn (table : List (Go.Bytes × List kademlia.NodeInfoT × Bool)) (tr : Li
   | some (ns, c) => pure (tr', ns, c)
   | none => pure (tr', [], true)
 
+/-! the four iterative DHT operations, regenerated, against the `dht` stream's simulated networks -/
+
+def dNode (id : Bytes) : kademlia.NodeInfoT := { ID := toU8s id, Info := toU8s (id.take 2) }
+
+def dFind (tab : List TabEntry) (n : kademlia.NodeInfoT) : Option TabEntry :=
+  match tab.find? (fun e => e.id == ofU8s n.ID) with
+  | some e => if e.kind == 'f' then none else some e
+  | none => none
+
+def dZero : Go.Bytes := List.replicate 32 0
+
+def dopRun (op : String) (key : Bytes) (param : Nat) (init : List Bytes) (tab : List TabEntry) : Go.M String :=
+  let initial := init.map dNode
+  let unreachable : Go.Err := some "unreachable"
+  match op with
+  | "findnode" => do
+    let (res, err) ← kademlia.DHTFindNode {
+      Initial := initial, Target := (toU8s key ++ dZero).take 32,
+      Validate := some (fun n => pure ((n.ID.getD 31 0).toNat % 4 != 3)),
+      Ask := fun n _ => pure (match dFind tab n with
+        | some e => ({ Nodes := e.peers.map dNode }, none)
+        | none => ({ Nodes := [] }, unreachable)) }
+    pure s!"closest={showU res.Closest} info={showU res.Info} contacted={res.Contacted} err={b2s err.isSome}"
+  | "join" => do
+    let added ← kademlia.DHTJoin {
+      Initial := initial, Target := (toU8s key ++ dZero).take 32,
+      AddPeer := fun _ _ => pure true,
+      Ask := fun n _ => pure (match dFind tab n with
+        | some e => ({ Nodes := e.peers.map dNode }, none)
+        | none => ({ Nodes := [] }, unreachable)) }
+    pure s!"added={added}"
+  | "get" => do
+    let (res, err) ← kademlia.DHTGet {
+      Key := toU8s key, Initial := initial,
+      Validate := some (fun v => pure (if param % 2 == 1 then decide (v.length ≤ 3) && (v.isEmpty || v.headD 0 != 0)
+                                         else !v.isEmpty && v.headD 0 != 0)),
+      Ask := fun n _ => pure (match dFind tab n with
+        | some e => ({ Value := if e.kind == 'a' then some (1 :: n.ID.take 2) else if e.kind == 'v' then some (0 :: n.ID.take 2) else none,
+                       ExpiresAt := default, Closer := e.peers.map dNode }, none)
+        | none => ({ Value := none, ExpiresAt := default, Closer := [] }, unreachable)) }
+    let v := if res.Value.isEmpty then "-" else showU res.Value
+    pure s!"value={v} from={showU res.From} closest={showU res.Closest} contacted={res.NumContacted} responded={res.NumResponded} err={b2s err.isSome}"
+  | "put" => do
+    let (res, err) ← kademlia.DHTPut {
+      Initial := initial, Key := toU8s key, Value := [118], TTL := 60000000000, MinAccepted := (param : Int),
+      Ask := fun n _ => pure (match dFind tab n with
+        | some e => ({ Accepted := e.kind == 'a', Closer := e.peers.map dNode }, none)
+        | none => ({ Accepted := false, Closer := [] }, unreachable)) }
+    pure s!"closest={showU res.Closest} accepted={res.Accepted} contacted={res.Contacted} responded={res.Responded} err={b2s err.isSome}"
+  | _ => pure "bad-op"
+
 def srcStep (_ : Unit) (ops : List String) (_impl : String) : Unit × String :=
   let r : String :=
     match ops with
     | ["mux", k, c, p] => srcMux k c p
     | ["demux", k, f] => srcDemux k f
+    | ["kad", "dop", op, key, param, init, tab] =>
+      showM (dopRun op (hexArg key) (natArg param) (parseIds init) (parseTable tab)) id
     | ["kad", "iter", key, n, init, tab] =>
       showM (kademlia.dhtIterate (iterRefs init) (hexU key) (intArg n) (iterFn (iterTable tab)) [])
         (fun tr => "t=" ++ ",".intercalate tr)
